@@ -8,7 +8,7 @@ LEVEL = "exploration"
 RULE = ("Listings L from the real objdump (random ELF64/ELF32 objects), from tests/assembly and from S-syn; L' = L after 1-30 "
         "random presentation edits that keep the instruction sequence: add/remove/rename symbol label lines, add/remove/alter "
         "trailing <sym+off> annotations (only after an operand token) and '# ...' comments (after operands or after the padded "
-        "mnemonic of operand-less instructions), blank lines, section headers, the file-format header, 0-12 leading spaces, "
+        "mnemonic of operand-less instructions), whole-line comments (also ones that quote an instruction row), blank lines, section headers, the file-format header, 0-12 leading spaces, "
         "raw-byte column content / byte count 1-7 / padding width (column present and well-formed), byte-continuation lines "
         "added/removed. Edits use R-line's segmentation: only a trailing ' <...>' and a trailing ' # ...' segment are touched. "
         "Metamorphic oracle on the real code: stream(L) == stream(L') and the address lists of 3 rules drawn from L's "
@@ -81,6 +81,10 @@ def edit_listing(rng, text: str):
             out.append(f"{spaces}{ln.addr}:\t{col}\t{t}")
             if do("add-continuation"):
                 out.append(f"{spaces}{ln.addr}:\t" + "".join("%02x " % rng.randrange(256) for _ in range(rng.randint(1, 7))))
+            if do("comment-line"):
+                # a whole-line comment, possibly quoting an instruction row (the style of the header of tests/assembly/AesCore.s)
+                quoted = rng.choice([raw, f"  {ln.addr}:\te8 dd ff ff ff \tcall   401106 <helper>", "just words", f"{ln.addr}:"])
+                out.append(rng.choice(["# ", "#", "// ", "; ", "#\t"]) + quoted)
             if do("blank"):
                 out.append("")
             if do("label"):
